@@ -41,6 +41,14 @@ CHECKS = {
    text='For every continuous family member with named rows whose optimum z3 proves unique, and every named row, z3 decides for a SYMBOLIC delta in [-d0,d0] that the optimum of the perturbed model is opt + p*delta (lower bound for all points, attainment by an exists/forall query); the reported shadow price must equal the exact slope p in the user sense, for min and max and <=, >=, = rows; inactive rows 0, unnamed rows none.',
    note='Degenerate / non-unique optima are filtered by the solver and counted. Tolerance 1e-4 relative (interior-point duals).',
    ref='DESIGN §3 C20'),
+ 'C09': dict(cat=TV, tech='real parser run on an enumerated family of token sequences; z3 decides equality of the parsed tree and an independent precedence-climbing reference tree for all real assignments',
+   text='For every operator sequence of the family (all sequences with <=2 binary operators x unary prefixes, a sample of longer ones, parenthesised sub-sequences for every operator pair, implicit products, keyword-prefixed identifiers, keyword and symbolic spellings) the real parse_and_transform output is compared with the documented precedence-climbing tree: value inequality (or different definedness) must be unsat over all assignments; a well-formed text must be accepted.',
+   note='The parse is a concrete run (pest cannot be executed symbolically); the for-all-assignments statement is the solver verdict. Trusted: the precedence table written in smt/c09.py from the documentation.',
+   ref='DESIGN §3 C09'),
+ 'C10': dict(cat=TV, tech='real Exp::simplify / Exp::flatten run on an exhaustive family of small trees, value and definedness preservation decided by z3 (NRA) for all assignments; constant re-spellings compared through the real compiler with exists/forall projection equivalence',
+   text='(a) 70k trees (every tree of depth <=1 over {x,y,0,1,2,-0.0,0.5}, every operator above a depth-1 tree): z3 decides that wherever the original is defined each rewrite (simplify, flatten, flatten.simplify and their second applications) is defined with the same value, and that an undefined point stays undefined. (b) 8 spellings of a coefficient in models where bound inference matters: all accepted or all rejected, and pairwise projection equivalence of the compiled linear models including best objective over auxiliary extensions.',
+   note='Typing precondition (stated in smt/c10.py): a non-constant operand of a logic operator is Boolean-valued, as the type checker and linearizer enforce; numeric constants in logic positions are unrestricted. Constant folding is compared with a 1e-9 relative margin (f64). Idempotence as a structural identity is not claimed.',
+   ref='DESIGN §3 C10'),
 }
 NA = {
  'C04': 'no value quantifier: every clause evaluates one returned point; the solver bridges (microlp, Clarabel, IndexMap) cannot be executed symbolically (DESIGN §3 C04); its premises are still evaluated inside C03/C05/C15',
